@@ -1,6 +1,6 @@
 SPECIFICATION Spec
 CONSTANTS
-  Alphabet = {"backup", "forget", "prune", "prune_instant", "repair_index", "repair_snapshots", "repair_snapshots_delete", "rewrite", "rewrite_forget", "config", "config_ao_off", "add_key", "merge"}
+  Alphabet = {"backup", "forget", "prune", "prune_instant", "repair_index", "repair_snapshots", "repair_snapshots_delete", "rewrite", "rewrite_forget", "config", "config_ao_off", "add_key", "merge", "copy_into"}
   N = 4
 INVARIANT Emit
 CHECK_DEADLOCK FALSE
